@@ -704,8 +704,13 @@ impl StreamHandle {
         self.state.reading.store(false, Ordering::SeqCst);
     }
 
+    /// An abort handle for the reader task (lets another task cancel the stream mid-flight).
+    pub fn reader_abort_handle(&self) -> Option<tokio::task::AbortHandle> {
+        self.reader.as_ref().map(|r| r.abort_handle())
+    }
+
     pub fn is_reading(&self) -> bool {
-        self.state.reading.load(Ordering::SeqCst) && self.ended().is_none()
+        self.state.reading.load(Ordering::SeqCst) && self.ended().is_none() && self.reader.as_ref().map(|r| !r.is_finished()).unwrap_or(false)
     }
 }
 
